@@ -40,6 +40,19 @@ func (customAddr) Network() string            { return "custom" }
 func (c customAddr) String() string           { return c.ap.String() }
 func (c customAddr) AddrPort() netip.AddrPort { return c.ap }
 
+// rotatingAddr reports its endpoints in turn.
+type rotatingAddr struct {
+	eps   []netip.AddrPort
+	calls int
+}
+
+func (*rotatingAddr) Network() string  { return "udp" }
+func (a *rotatingAddr) String() string { return a.eps[0].String() }
+func (a *rotatingAddr) AddrPort() netip.AddrPort {
+	a.calls++
+	return a.eps[(a.calls-1)%len(a.eps)]
+}
+
 func checkAddr(c AddrCase) error {
 	ip := c.ip()
 	snapshot := bytes.Clone(ip)
@@ -117,6 +130,26 @@ func checkAddr(c AddrCase) error {
 			if got.Addr().Is6() && got.Addr().Zone() != c.Zone {
 				return fmt.Errorf("NetAddrToAddrPort(%T %v) = %v changed the zone", na, na, got)
 			}
+		}
+	}
+	// An address whose AddrPort() is a live view (a pooled or migrating
+	// endpoint): successive calls report different endpoints.  The result must
+	// be the unmapped form of ONE of the endpoints it reported.
+	if ownIP.IsValid() {
+		ob := ownIP.AsSlice()
+		ob[len(ob)-1] ^= 0x81 // another host of the same family and form (a mapped address stays mapped)
+		otherIP, _ := netip.AddrFromSlice(ob)
+		other := netip.AddrPortFrom(otherIP.WithZone(zoneFor(otherIP, c.Zone)), uint16(c.Port)^0x5555)
+		rot := &rotatingAddr{eps: []netip.AddrPort{cust.ap, other}}
+		got := netutil.NetAddrToAddrPort(rot)
+		ok := false
+		for _, ep := range rot.eps {
+			if got == netip.AddrPortFrom(ep.Addr().Unmap(), ep.Port()) {
+				ok = true
+			}
+		}
+		if !ok {
+			return fmt.Errorf("NetAddrToAddrPort of an address that reports the endpoints %v in turn = %v, which is the unmapped form of none of them (%d AddrPort calls)", rot.eps, got, rot.calls)
 		}
 	}
 	for _, na := range []net.Addr{&net.IPAddr{IP: c.ip(), Zone: c.Zone}, &net.UnixAddr{Name: "x", Net: "unix"}, &net.IPNet{IP: c.ip(), Mask: net.CIDRMask(8, 32)}} {
